@@ -367,11 +367,75 @@ Definition model_ok_rm (c : rmcase) : bool :=
 Definition spec_ok_rm (c : rmcase) : bool :=
   forall_i (fun r q => spec_ok_r (to_rcase (rm_crash c) (rm_ops c) r q)) 0 (rm_reqs c).
 
+(* ------------------------------------------------------------------ configurations through the real engine / server *)
+(* run-length encoded bytes: bodies of hundreds of KiB stay small as terms *)
+Definition unrle (l : list (nat * nat)) : list nat := flat_map (fun bn => repeat (fst bn) (snd bn)) l.
+
+(* One request through the chain engine.bindRoute builds for (Config.Timeout, route WithTimeout, Config.Verbose); the
+   scripted handler is kept parked in front of action e_k for e_hold ms (0: never parked).  Which deadline applies is
+   Model.effective_timeout; the handler overruns it iff 0 < deadline < hold. *)
+Record ecase := mkec {
+  e_global : Z; e_route : Z; e_verbose : bool;
+  e_hold : Z; e_k : nat;
+  e_acts : list action;
+  eo_resp : response;           (* what the http client received *)
+  eo_trace : list outcome;
+  eo_answered : bool;           (* the client got a well-formed response at all *)
+  eo_prompt : bool              (* ... while the handler was still parked *)
+}.
+Definition e_deadline (c : ecase) : Z := effective_timeout (e_global c) (e_route c).
+Definition e_overrun (c : ecase) : bool := (0 <? e_hold c) && (0 <? e_deadline c) && (e_deadline c <? e_hold c).
+(* the same request as a case of the in-package kind: a client that saw a response saw exactly one commit *)
+Definition e_to_t (c : ecase) : tcase :=
+  mktc true (if e_deadline c =? 0 then BZero else BNone) 0 (-1) [] (e_acts c)
+       (if e_overrun c then FCut (e_k c) CTimeout else FNone)
+       [RWriteHeader (r_status (eo_resp c)) (r_headers (eo_resp c)); RWrite (r_body (eo_resp c))]
+       (eo_resp c) (eo_trace c) false.
+(* was the handler (still alive and) parked when the deadline came?  only then can the answer come early *)
+Definition e_cut_taken (c : ecase) : bool :=
+  e_overrun c && negb (has_panic (firstn (e_k c) (e_acts c))) && Nat.leb (e_k c) (List.length (e_acts c)).
+
+Definition model_ok_e (c : ecase) : bool :=
+  eo_answered c && Bool.eqb (eo_prompt c) (e_cut_taken c) &&
+  if e_deadline c =? 0
+  then (* no timeout guard in the chain: the handler talks to the real writer; compare what a client reads off it *)
+    let '(w, tr, p) := direct_run true (mkrw [] []) (e_acts c) [] in
+    negb p && resp_eqb (client_view w) (eo_resp c) && list_eqb outcome_eqb tr (eo_trace c)
+  else model_ok_t (e_to_t c).
+Definition spec_ok_e (c : ecase) : bool :=
+  eo_answered c &&
+  (* bounded by the deadline that applies: an overrunning handler is answered while it is still parked *)
+  (if e_cut_taken c then eo_prompt c else true) &&
+  spec_ok_t (e_to_t c).
+
+(* A unary call through a real started rpc server built by rpc.NewServer(ServerConfig{Timeout = s_timeout ms}); the
+   scripted handler ignores its context and stays parked for s_hold ms (0: returns at once).  Crash is built in. *)
+Record scase := mksc {
+  s_timeout : Z; s_hold : Z; s_h : hres;
+  so_res : rres; so_hung : bool; so_prompt : bool
+}.
+Definition s_overrun (c : scase) : bool := (0 <? s_hold c) && (0 <? s_timeout c) && (s_timeout c <? s_hold c).
+(* what crosses the wire: a response message only together with an OK status *)
+Definition s_handler (c : scase) : hres :=
+  match s_h c with HReturn r code => HReturn (if Nat.eqb code 0 then r else None) code | h => h end.
+Definition s_to_r (c : scase) : rcase :=
+  mkrc true (rpc_has_timeout (s_timeout c)) (s_handler c)
+       (if s_overrun c then RBefore CTimeout else RNone) (so_res c) (so_hung c).
+(* a nil message with an OK status is marshalled as the empty message: the client reads the zero value *)
+Definition on_wire (r : rres) : rres :=
+  match r with RResult None O => RResult (Some O) O | x => x end.
+Definition model_ok_s (c : scase) : bool :=
+  Bool.eqb (so_prompt c) (s_overrun c) &&
+  if rpc_has_timeout (s_timeout c) then model_ok_r (s_to_r c)
+  else negb (so_hung c) && rres_eqb (on_wire (rpc_server_direct (s_handler c))) (so_res c).
+Definition spec_ok_s (c : scase) : bool := (if s_overrun c then so_prompt c else true) && spec_ok_r (s_to_r c).
+
 (* ------------------------------------------------------------------ the case type vcheck evaluates *)
-Inductive case := CaseT (c : tcase) | CaseC (c : ccase) | CaseR (c : rcase) | CaseM (c : mcase) | CaseRM (c : rmcase).
+Inductive case := CaseT (c : tcase) | CaseC (c : ccase) | CaseR (c : rcase) | CaseM (c : mcase) | CaseRM (c : rmcase)
+                | CaseE (c : ecase) | CaseS (c : scase).
 Definition model_ok (c : case) : bool :=
   match c with CaseT t => model_ok_t t | CaseC k => model_ok_c k | CaseR r => model_ok_r r
-               | CaseM m => model_ok_m m | CaseRM m => model_ok_rm m end.
+               | CaseM m => model_ok_m m | CaseRM m => model_ok_rm m | CaseE e => model_ok_e e | CaseS x => model_ok_s x end.
 Definition spec_ok (c : case) : bool :=
   match c with CaseT t => spec_ok_t t | CaseC k => spec_ok_c k | CaseR r => spec_ok_r r
-               | CaseM m => spec_ok_m m | CaseRM m => spec_ok_rm m end.
+               | CaseM m => spec_ok_m m | CaseRM m => spec_ok_rm m | CaseE e => spec_ok_e e | CaseS x => spec_ok_s x end.
